@@ -37,9 +37,10 @@ type fnlit struct {
 }
 
 type cond struct {
-	K byte // 't' true, 'f' false, '<' name < C, '>' name > C, 'a' (name += C) > 0
-	N string
-	C int64
+	K  byte // 't' true, 'f' false, '<' name < C, '>' name > C, 'a' (name += C) > 0, 'F' func N() { Fn }() == 1 (always false)
+	N  string
+	C  int64
+	Fn *fnlit
 }
 
 type arm struct {
@@ -48,16 +49,16 @@ type arm struct {
 }
 
 const (
-	opAssign = iota // Name = E
-	opVar           // var Name = E
-	opRead          // r(Tag, a ?? "U", b ?? "U")
-	opRead1         // r1(Tag, Name ?? "U")
-	opReadMod       // r(Tag, Name.a ?? "U", Name.b ?? "U")
-	opIf            // Arms / Else
-	opFor           // for { Body }
-	opWhile         // for Cond { Body }
-	opCFor          // for Name = 0; Name < N; Name++ { Body }
-	opForIn         // for Name in Vals { Body }
+	opAssign  = iota // Name = E
+	opVar            // var Name = E
+	opRead           // r(Tag, a ?? "U", b ?? "U")
+	opRead1          // r1(Tag, Name ?? "U")
+	opReadMod        // r(Tag, Name.a ?? "U", Name.b ?? "U")
+	opIf             // Arms / Else
+	opFor            // for { Body }
+	opWhile          // for Cond { Body }
+	opCFor           // for Name = 0; Name < N; Name++ { Body }
+	opForIn          // for Name in Vals { Body }
 	opBreak
 	opContinue
 	opReturn
@@ -88,6 +89,11 @@ type stmt struct {
 	Match      bool
 	Params     []string
 	Args       []*expr
+	// a function literal named "a", declared and called inside a head
+	// expression: the switch operand, a case expression, the C-for init
+	HeadFn *fnlit
+	CaseFn *fnlit
+	InitFn *fnlit
 }
 
 // ---------- rendering to anko source ----------
@@ -111,8 +117,10 @@ func renderExpr(e *expr, ind string) string {
 	panic("bad expr")
 }
 
-func renderCond(c *cond) string {
+func renderCond(c *cond, ind string) string {
 	switch c.K {
+	case 'F':
+		return renderNamedCall(c.N, c.Fn, ind) + " == 1"
 	case 't':
 		return "true"
 	case 'f':
@@ -125,6 +133,10 @@ func renderCond(c *cond) string {
 		return fmt.Sprintf("(%s += %d) > 0", c.N, c.C)
 	}
 	panic("bad cond")
+}
+
+func renderNamedCall(name string, f *fnlit, ind string) string {
+	return "func " + name + "() {\n" + render(f.Body, ind+"  ") + ind + "}()"
 }
 
 func render(b []*stmt, ind string) string {
@@ -150,7 +162,7 @@ func render(b []*stmt, ind string) string {
 				} else {
 					sb.WriteString(" else if ")
 				}
-				sb.WriteString(renderCond(a.Cond) + " {\n" + render(a.Body, in2) + ind + "}")
+				sb.WriteString(renderCond(a.Cond, ind) + " {\n" + render(a.Body, in2) + ind + "}")
 			}
 			if s.HasElse {
 				sb.WriteString(" else {\n" + render(s.Else, in2) + ind + "}")
@@ -158,8 +170,12 @@ func render(b []*stmt, ind string) string {
 		case opFor:
 			sb.WriteString("for {\n" + render(s.Body, in2) + ind + "}")
 		case opWhile:
-			sb.WriteString("for " + renderCond(s.Cond) + " {\n" + render(s.Body, in2) + ind + "}")
+			sb.WriteString("for " + renderCond(s.Cond, ind) + " {\n" + render(s.Body, in2) + ind + "}")
 		case opCFor:
+			if s.InitFn != nil {
+				fmt.Fprintf(&sb, "for var %s, j%s = 0, %s; %s < %d; %s++ {\n%s%s}", s.Name, s.Name, renderNamedCall("a", s.InitFn, ind), s.Name, s.N, s.Name, render(s.Body, in2), ind)
+				break
+			}
 			fmt.Fprintf(&sb, "for %s = 0; %s < %d; %s++ {\n%s%s}", s.Name, s.Name, s.N, s.Name, render(s.Body, in2), ind)
 		case opForIn:
 			var vs []string
@@ -176,7 +192,11 @@ func render(b []*stmt, ind string) string {
 		case opThrow:
 			sb.WriteString(`throw "x"`)
 		case opSwitch:
-			if s.Match {
+			if s.HeadFn != nil {
+				sb.WriteString("switch " + renderNamedCall("a", s.HeadFn, ind) + " {\n" + ind + "case 1:\n" + ind + "}")
+			} else if s.CaseFn != nil {
+				sb.WriteString("switch 1 {\n" + ind + "case " + renderNamedCall("a", s.CaseFn, ind) + ":\n" + ind + "}")
+			} else if s.Match {
 				sb.WriteString("switch 1 {\n" + ind + "case 1:\n" + render(s.Body, in2) + ind + "}")
 			} else {
 				sb.WriteString("switch 1 {\n" + ind + "case 2:\n" + ind + "default:\n" + render(s.Body, in2) + ind + "}")
@@ -220,31 +240,29 @@ type reso struct {
 	Try   int // 0 try, catch and finally share one child scope, 1 each of them gets its own child scope
 	Sig   int // break/continue/return leaving a try BODY: 0 handled like an error (catch runs, then finally, execution goes on after the try), 1 passes through and finally runs, 2 passes through and finally does not run
 	Brk   int // break inside a switch inside a loop: 0 leaves the loop, 1 leaves the switch
+	// where does a head expression bind a name (only a named function literal can do that)?
+	ElifHead int // else-if condition: 0 in the scope of the if statement, 1 in a scope of its own
+	SwHead   int // switch operand and case expressions: 0 in the scope of the switch statement, 1 in the switch's own scope
+	CInit    int // C-for init statement: 0 in the loop's own (header) scope, 1 in the scope of the for statement
 }
 
-var resoDims = [6]int{2, 2, 3, 2, 3, 2}
+const nDims = 9
 
-const nReso = 2 * 2 * 3 * 2 * 3 * 2 // 144
+var resoDims = [nDims]int{2, 2, 3, 2, 3, 2, 2, 2, 2}
+
+const nReso = 2 * 2 * 3 * 2 * 3 * 2 * 2 * 2 * 2 // 1152
 
 func resoOf(i int) reso {
-	var d [6]int
-	for k := 0; k < 6; k++ {
+	var d [nDims]int
+	for k := 0; k < nDims; k++ {
 		d[k] = i % resoDims[k]
 		i /= resoDims[k]
 	}
-	return reso{d[0], d[1], d[2], d[3], d[4], d[5]}
+	return reso{d[0], d[1], d[2], d[3], d[4], d[5], d[6], d[7], d[8]}
 }
 
-func (r reso) dims() [6]int { return [6]int{r.LoopA, r.LoopC, r.LoopI, r.Try, r.Sig, r.Brk} }
-
-func (r reso) String() string {
-	la := []string{"per-loop", "per-iteration"}
-	li := []string{"per-loop", "per-iteration(var inside)", "header(var)+per-iteration body"}
-	tr := []string{"shared", "separate"}
-	sg := []string{"caught-like-error", "pass+finally", "pass-no-finally"}
-	bk := []string{"leaves-loop", "leaves-switch"}
-	return fmt.Sprintf("for/while=%s cfor=%s forin=%s try/catch/finally-scope=%s signal-through-try=%s break-in-switch=%s",
-		la[r.LoopA], la[r.LoopC], li[r.LoopI], tr[r.Try], sg[r.Sig], bk[r.Brk])
+func (r reso) dims() [nDims]int {
+	return [nDims]int{r.LoopA, r.LoopC, r.LoopI, r.Try, r.Sig, r.Brk, r.ElifHead, r.SwHead, r.CInit}
 }
 
 // ---------- the reference interpreter ----------
@@ -348,8 +366,20 @@ func (m *machine) eval(e *expr, s *mscope) (mval, bool) {
 	panic("bad expr")
 }
 
+// callNamed declares the function literal under name in scope hs and calls it.
+func (m *machine) callNamed(name string, f *fnlit, hs *mscope) sig {
+	fv := mval{k: 'f', fn: &mfunc{lit: f, env: hs}}
+	hs.v[name] = fv
+	return m.call(fv, nil)
+}
+
 func (m *machine) evalCond(c *cond, s *mscope) (bool, bool) {
 	switch c.K {
+	case 'F':
+		if m.callNamed(c.N, c.Fn, s) != sNone {
+			return false, false
+		}
+		return false, true // the call yields nil, and nil == 1 is false
 	case 't':
 		return true, true
 	case 'f':
@@ -480,8 +510,12 @@ func (m *machine) exec(st *stmt, s *mscope) sig {
 		}
 		m.log = append(m.log, st.Tag+":"+one("a")+","+one("b"))
 	case opIf:
-		for _, a := range st.Arms {
-			c, ok := m.evalCond(a.Cond, s)
+		for i, a := range st.Arms {
+			cs := s
+			if i > 0 && m.R.ElifHead == 1 {
+				cs = newScope(s)
+			}
+			c, ok := m.evalCond(a.Cond, cs)
 			if !ok {
 				return sErr
 			}
@@ -505,7 +539,20 @@ func (m *machine) exec(st *stmt, s *mscope) sig {
 		return m.loop(st, cnd, nil, body, -1)
 	case opCFor:
 		hdr := newScope(s)
-		hdr.assign(st.Name, mval{k: 'i', n: 0})
+		if st.InitFn != nil {
+			// for var i, j = 0, func a() { ... }(); ...
+			is := hdr
+			if m.R.CInit == 1 {
+				is = s
+			}
+			if m.callNamed("a", st.InitFn, is) != sNone {
+				return sErr
+			}
+			is.v[st.Name] = mval{k: 'i', n: 0}
+			is.v["j"+st.Name] = mval{k: 'z'}
+		} else {
+			hdr.assign(st.Name, mval{k: 'i', n: 0})
+		}
 		cnd := func() (bool, bool) { return m.evalCond(&cond{K: '<', N: st.Name, C: st.N}, hdr) }
 		post := func() bool {
 			v, ok := hdr.lookup(st.Name)
@@ -541,7 +588,21 @@ func (m *machine) exec(st *stmt, s *mscope) sig {
 	case opThrow:
 		return sErr
 	case opSwitch:
-		g := m.block(st.Body, newScope(s))
+		sw := newScope(s)
+		if f := st.HeadFn; f != nil || st.CaseFn != nil {
+			if f == nil {
+				f = st.CaseFn
+			}
+			hs := s
+			if m.R.SwHead == 1 {
+				hs = sw
+			}
+			if m.callNamed("a", f, hs) != sNone {
+				return sErr
+			}
+			return sNone // nil matches neither `case 1` nor the operand 1; there is no default
+		}
+		g := m.block(st.Body, sw)
 		if g == sBrk && m.R.Brk == 1 {
 			return sNone
 		}
